@@ -21,6 +21,12 @@ BUILT = {
          "Seeded search over message sequences x pipe configurations x writer/reader schedules, plus exhaustive split points of short streams inside each 'splits' run and hostile prefixes; oracle = decoded sequence equals encoded sequence / reference frame parser; evidence, not proof",
          "trusts the in-memory pipe to model a reliable ordered byte stream and asynchronous-codec's FramedRead/Write (both real code)", "5/C57"),
 }
+BUILT["C14"] = ("E1", "exploration", "deterministic simulation: real dialer and listener futures as two scheduled units over a fault-injecting in-memory duplex; outcome + payload-equality oracle",
+  "Seeded search over protocol lists x version x payloads x pipe configurations x schedules (plus connection resets in the heavy profile); oracle: both sides agree on the first common protocol or both fail with Failed, optimistic dialer learns failure at first read, payload bytes arrive complete and in order, and the tapped wire equals a hand-written reference encoding",
+  "assumes the transport buffers one negotiation flight (>= 40 kB per direction; smaller buffers deadlock multistream-select by design); dialer names valid in the strict scenario", "5/C14")
+BUILT["C15"] = ("E1", "fault_enumeration", "deterministic simulation with hostile-peer fault enumeration: scripted raw peer bytes x chunking schedules against the real listener/dialer; reference encoder/parser as oracle",
+  "Enumerated hostile cases (over-long varints, 16383/16384 frames, 1000 vs 1001 protocols, names without '/', missing newline, wrong header, bit flips, truncation at every offset) each under drawn chunkings and schedules; honest runs compare the full wire image with a reference encoding; panics are violations",
+  "reference encoder/parser written from the spec; case list is finite, chunkings sampled", "5/C15")
 NOT_YET = {}
 
 def main():
